@@ -1,0 +1,19 @@
+//go:build verif
+
+package mp4
+
+import "sort"
+
+// VerifDecoderKeys returns the registered box types of the two dispatch tables
+// (decoders for io.Reader, decodersSR for SliceReader), each sorted.
+func VerifDecoderKeys() (reader []string, sliceReader []string) {
+	for k := range decoders {
+		reader = append(reader, k)
+	}
+	for k := range decodersSR {
+		sliceReader = append(sliceReader, k)
+	}
+	sort.Strings(reader)
+	sort.Strings(sliceReader)
+	return reader, sliceReader
+}
